@@ -32,7 +32,7 @@ class ScriptSock:
                 # delivers empty chunks mid-stream (they are dropped by the caller)
                 raise AssertionError('empty chunk')
             return c
-        self.rm_box[0]._stop_request.set()
+        fixture.find_stop_event(self.rm_box[0]).set()
         return b''
 
     def sendall(self, d):
@@ -49,10 +49,10 @@ def run_impl(chunks):
         ad = fixture.metadata_adapter()
         h = fixture.make_handler()
         srv = fixture.start_meta(env, ad, handler=h)
-        rm = srv._request_manager
+        rm = fixture.find_request_manager(srv)
         srv.on_received_request = lambda req: log.append(('line', req))
         sock = ScriptSock(chunks, [rm], log)
-        rm._do_run(sock)
+        fixture.reader_entry(srv)(sock)
         exc = len(h.ex) + len(h.io)
     per = []
     cur = None
